@@ -46,13 +46,13 @@ STIMS = ["SCall", "SAddPipe", "SDropPipe", "SDeliver", "SHold", "SRelease", "SPa
 CALLS = ["CSend", "CRecv", "CSetOpt", "COpenCtx", "CCloseCtx", "CCloseSock"]
 
 
-def run(res, pid, proto, imports, model, init, oracles, what_mismatch, env=None, gocmd=None, check_fn=None, ambig_fn=None, prelude=""):
+def run(res, pid, proto, imports, model, init, oracles, what_mismatch, env=None, gocmd=None, check_fn=None, ambig_fn=None, prelude="", sub=""):
     """oracles: list of (name, coq_function, description). Returns number of concrete findings."""
     ortext = "\n".join("Definition %s := Eval vm_compute in map %s histories.\nPrint %s." % (n, f, n) for n, f, _ in oracles)
     header = HEADER % {"imports": imports} + prelude
     footer = FOOTER % {"check_fn": check_fn or "(fun h => check_from %s %s 0 h)" % (model, init),
                        "ambig_fn": ambig_fn or "(fun h => ambiguous_from %s %s 0 h)" % (model, init), "oracles": ortext}
-    shards, (rc, so, se) = core.gen_and_eval_sharded(pid, gocmd or ("l1" + proto), header, footer, goargs=None, env=env, sub="")
+    shards, (rc, so, se) = core.gen_and_eval_sharded(pid, gocmd or ("l1" + proto), header, footer, goargs=None, env=env, sub=sub)
     found = 0
     if shards is None:
         res.violation("harness-abort", "the %s history harness did not complete on the current tree (rc=%d): %s" % (proto, rc, se[-800:]),
